@@ -870,6 +870,15 @@ def _drift_ops():
         "searchsorted-keys-drift": (lambda r: da.searchsorted(da.from_array(np.arange(0.0, 40.0, 4.0), chunks=4), r), lambda a: np.searchsorted(np.arange(0.0, 40.0, 4.0), a)),
         "where-cond-drift": (lambda r: da.where(r > 10, _known_like(r), -1.0), lambda a: np.where(a > 10, _np_known_like(a), -1.0)),
         "matmul-known": (lambda r: r.reshape(r.shape[0], -1).T @ _known_like(r).reshape(r.shape[0], -1), lambda a: a.reshape(a.shape[0], -1).T @ _np_known_like(a).reshape(a.shape[0], -1)),
+        "histogram-weights-drift": (lambda r: da.histogram(_known_like(r).rechunk(r.chunks), bins=4, range=(0, 60), weights=r)[0], lambda a: np.histogram(_np_known_like(a), bins=4, range=(0, 60), weights=a)[0]),
+        "histogram2d-weights-drift": (lambda r: da.histogram2d(_known_like(r).ravel().rechunk(r.ravel().chunks), _known_like(r).ravel().rechunk(r.ravel().chunks) / 2, bins=(2, 2), range=((0, 80), (0, 40)), weights=r.ravel())[0],
+                                      lambda a: np.histogram2d(_np_known_like(a).ravel(), _np_known_like(a).ravel() / 2, bins=(2, 2), range=((0, 80), (0, 40)), weights=a.ravel())[0]),
+        "average-weights-drift": (lambda r: da.average(_known_like(r), axis=0, weights=r), lambda a: np.average(_np_known_like(a), axis=0, weights=a)),
+        "compress-cond-drift": (lambda r: da.compress((r.ravel() > 10), _known_like(r).ravel(), axis=0), lambda a: np.compress(a.ravel() > 10, _np_known_like(a).ravel(), axis=0)),
+        "concatenate-known-drift": (lambda r: da.concatenate([_known_like(r), r, _known_like(r)[:1]]), lambda a: np.concatenate([_np_known_like(a), a, _np_known_like(a)[:1]])),
+        "isin-test-drift": (lambda r: da.isin(_known_like(r), r), lambda a: np.isin(_np_known_like(a), a)),
+        "map_blocks-two-args": (lambda r: da.map_blocks(_pair_start, r, _known_like(r).rechunk(r.chunks), dtype="f8"), lambda a: a + _np_known_like(a) + np.arange(a.shape[0]).reshape((-1,) + (1,) * (a.ndim - 1))),
+        "choose": (lambda r: da.choose((r.ravel() % 2).astype(int), [_known_like(r).ravel(), r.ravel()]), lambda a: np.choose((a.ravel() % 2).astype(int), [_np_known_like(a).ravel(), a.ravel()])),
         "unify-with-known": (lambda r: r + da.from_array(np.arange(float(r.shape[0])).reshape((-1,) + (1,) * (r.ndim - 1)), chunks=5), lambda a: a + np.arange(float(a.shape[0])).reshape((-1,) + (1,) * (a.ndim - 1))),
     }
     return ops
@@ -913,6 +922,12 @@ def _block_start(b, block_info=None):
     return out
 
 
+def _pair_start(b, c, block_info=None):
+    import numpy as np
+    lo, hi = block_info[0]["array-location"][0]
+    return b + c + np.arange(lo, hi).reshape((-1,) + (1,) * (b.ndim - 1))
+
+
 def _store_roundtrip(r):
     import numpy as np
     import dask_array as da
@@ -936,6 +951,48 @@ def _nest(flat, nb):
         return list(flat)
     n = len(flat) // nb[0]
     return [_nest(flat[i * n:(i + 1) * n], nb[1:]) for i in range(nb[0])]
+
+
+@contract("dask_array/_histogram.py::histogramdd", spec="sequence-sample-with-a-drifting-coordinate", props=["C03", "C04"])
+class histogramdd_drifting_coordinate:
+    """histogramdd over a sequence of coordinate arrays computes NumPy's histogram also when one coordinate array's
+    optimised layout differs from its advertised one (known finding F50: the coordinate expressions sit in a tuple operand,
+    which the lowering machinery does not pin or re-key, so the hand-built layer refers to blocks that do not exist)"""
+    bounded_only = True
+    params = {"drifting": "const", "chunks": "const"}
+    scope = "two coordinate arrays of length 12; none / the first / the second drifting; 2 layouts of the known one"
+
+    def real():
+        return lambda: None
+
+    def call(fn, drifting, chunks):
+        import numpy as np
+        import dask_array as da
+        swv = np.lib.stride_tricks.sliding_window_view
+        v = np.arange(14.0) * 5 % 9 + 1
+        a = swv(v, 3).sum(-1)
+        b = np.arange(12.0) * 2 + 1
+        r = da.sliding_window_view(da.from_array(v, chunks=1), 3).sum(-1) if drifting != "none" else da.from_array(a, chunks=chunks)
+        k = da.from_array(b, chunks=r.chunks)
+        sample = (r, k) if drifting != "second" else (k, r)
+        ref = (a, b) if drifting != "second" else (b, a)
+        try:
+            got = np.asarray(da.histogramdd(sample, bins=(3, 2), range=((0, 40), (0, 40)))[0].compute())
+        except Exception as e:
+            return ("raised", f"{type(e).__name__}: {str(e)[:60]}", None)
+        return ("computed", got, np.histogramdd(ref, bins=(3, 2), range=((0, 40), (0, 40)))[0])
+
+    def requires(drifting, chunks):
+        return True
+
+    def ensures(result, drifting, chunks):
+        kind, got, want = result
+        return {"computes-numpys-histogram": kind == "computed" and _same(got, want)}
+
+    def domain(tier, rng):
+        for drifting in ("none", "first", "second"):
+            for chunks in (3, 4):
+                yield {"drifting": drifting, "chunks": chunks}
 
 
 @contract("dask_array/_expr.py::ChunksFreeze.lower_once", spec="routines-on-a-layout-drifting-input", props=["C03", "C02", "C20"])
